@@ -90,7 +90,7 @@ func (plugin *ResponseBasedThrottlingPlugin) OnResponse(
 	cachedResponse := CachedResponse{
 		ID:           onResponse.ID,
 		Body:         onResponse.Body,
-		Headers:      onResponse.Headers,
+		Headers:      utils.DeepCopyHeaders(onResponse.Headers),
 		Status:       onResponse.Status,
 		CreationTime: plugin.clock.Now(),
 	}
@@ -169,7 +169,7 @@ func getUpdatedHeaders(
 	clock clock.Clock,
 ) (map[string]string, error) {
 	if remedyConfig.RetryAfterType != sharedConfig.RetryAfterRelativeSeconds {
-		return cachedResponse.Headers, nil
+		return utils.DeepCopyHeaders(cachedResponse.Headers), nil
 	}
 
 	retryAfter, err := readRetryAfter(
